@@ -19,8 +19,8 @@ G:    TLC prints, per tree / template, the input text, the echo predicted by bot
       factor, and as displayed), names defined, probes, and the echo of the echo.
 J:    seeded random deeper trees generated and executed by the harness, recorded as ndjson, judged line by line by
       spec/Trace_Printer.tla (the same Print / Read operators).
-Findings are classified by the table entries the spec names for the case, confirmed by executing the REPAIRED echo
-(it must be accepted with the same type and value): see c15_proposed_findings.json.
+Findings are classified by the table entries the spec names for the case (signature kinds of the C15 entries of
+known_findings.json), confirmed by executing the REPAIRED echo (it must be accepted with the same type and value).
 """
 import json
 import os
@@ -40,23 +40,19 @@ REL_TOL = 1e-12      # value tolerance where the echo re-associates a product or
 
 
 def group_of(tag):
+    """table entry / statement repair in which the pinned and the repaired rules of the spec differ -> signature kind.
+    (The entries of the defects repaired in /repo - conversion operands ec9ff21, base of a call or field access 199d4b4,
+    decorator strings cb8c768, fractional annotation exponents 30f8317, struct type parameters eb926bd - are gone from
+    the spec's pinned rules: if one of them reappears the echo differs from the spec's text and the failing round trip
+    carries no entry, i.e. it is a plain violation.)"""
     ctx, _, cls = tag.partition("/")
     if ctx == "stmt":
-        return {"decorator-string": "echo-decorator-string-unquoted",
-                "polymorphic-annotation": "echo-polymorphic-let-annotation",
+        return {"polymorphic-annotation": "echo-polymorphic-let-annotation",
                 "dimension-alternatives": "echo-dimension-alternatives",
                 "implicit-dimension": "echo-base-unit-implicit-dimension",
-                "struct-type-parameters": "echo-struct-type-parameters-dropped",
-                "annotation-fraction-exponent": "echo-annotation-fraction-exponent",
                 "inferred-exponent-respelled": "echo-inferred-exponent-respelled"}.get(cls, "unknown:" + tag)
     if cls in ("tempjux", "tempconv"):
         return "echo-temperature-sugar-operand"
-    if ctx in ("callee", "fieldbase"):
-        return "echo-postfix-base-unparenthesised"
-    if ctx in ("convL", "convR") and cls == "if":
-        return "echo-conversion-operand-conditional"
-    if ctx == "convR" and cls == "conv":
-        return "echo-conversion-right-operand-conversion"
     return "unknown:" + tag
 
 
@@ -527,11 +523,14 @@ def self_tests(cx, jpaths):
 def run(tier, seed):
     rep = nv.Report(PROP, tier, seed, "model_checking")
     if os.environ.get("NV_C15_ASSUME_PROPOSED") and os.path.exists(PROPOSED):
-        # mutation / fix experiments only: treat the findings proposed by this check as known, so that the exit status
-        # tells whether the patch adds NEW violations (or, with NV_C15_EXCEPT=<id>, whether a fix removes that finding)
+        # fix experiments only (not needed for normal runs: known_findings.json carries the C15 entries): entries of
+        # c15_proposed_findings.json with status "known" are added; NV_C15_EXCEPT=<ids> leaves some out, so that the exit
+        # status tells whether a candidate fix removes that finding
         skip = set(filter(None, os.environ.get("NV_C15_EXCEPT", "").split(",")))
         have = {e.get("id") for e in rep.known}
-        rep.known += [e for e in json.load(open(PROPOSED)) if e.get("property") == PROP and e["id"] not in have and e["id"] not in skip]
+        rep.known = [e for e in rep.known if e.get("id") not in skip]
+        rep.known += [e for e in json.load(open(PROPOSED)) if e.get("property") == PROP and e.get("status") == "known"
+                      and e["id"] not in have and e["id"] not in skip]
         rep.notes["assumed_proposed_findings"] = [e["id"] for e in rep.known]
     nv.build_harness(["nv-printer"])
     sc = nv.scratch("c15")
